@@ -11,6 +11,7 @@ from .. import twin as TW
 from ..common import Check, digest, log, rng_for
 
 PROP = "C02"
+RT = S.RT
 
 
 def gen_case(seed, k, cap):
@@ -136,6 +137,63 @@ def judge(chk, c, obs, dropped):
                                         for op, i, j, res, ev in o.recs[:4]]}, limit=3)
 
 
+UNSIZED_TEXT = (
+    "pub fn first_eq<T: ?Sized + ::core::fmt::Debug>(a: &T, b: &T) -> bool { format!(\"{:?}\", a).as_bytes().get(1) == format!(\"{:?}\", b).as_bytes().get(1) }\n"
+    "#[derive(::educe::Educe)]\n#[educe(PartialEq)]\npub struct Ig<T: ?Sized> {\n    pub id: u8,\n    #[educe(PartialEq(ignore))]\n    pub tail: T,\n}\n"
+    "#[derive(::educe::Educe)]\n#[educe(PartialEq)]\npub struct Me<T: ?Sized + ::core::fmt::Debug>(pub u8, #[educe(PartialEq(method(first_eq)))] pub T);\n"
+    "#[derive(::educe::Educe)]\n#[educe(PartialEq, Eq)]\npub struct Bi<T: ?Sized> {\n    pub id: u8,\n    pub tail: T,\n}\n")
+UNSIZED_VALS = [(1, [1, 2, 3]), (1, [1, 2]), (1, [9, 2, 3]), (2, [1, 2, 3]), (1, []), (1, [1, 2, 3])]
+
+
+def unsized_case():
+    """values of one unsized type whose tails have different lengths (and so different sizes): == is still decided by the
+    compared fields alone -- ignored tail, tail compared by a method, tail compared by its own =="""
+    from .. import harness as H
+    vals = ["(%d, &[%s][..])" % (i, ", ".join("%du8" % x for x in t)) for i, t in UNSIZED_VALS]
+    mk = ("pub fn all() -> Vec<(u8, &'static [u8])> { vec![%s] }\n" % ", ".join(vals) +
+          "pub fn ig(v: &(u8, &'static [u8])) -> Box<Ig<[u8]>> { let b: Box<Ig<[u8; 0]>> = Box::new(Ig { id: v.0, tail: [] }); let _ = b; "
+          "match v.1.len() { 0 => Box::new(Ig { id: v.0, tail: [0u8; 0] }) as Box<Ig<[u8]>>, 2 => Box::new(Ig { id: v.0, tail: [v.1[0], v.1[1]] }) as Box<Ig<[u8]>>, "
+          "_ => Box::new(Ig { id: v.0, tail: [v.1[0], v.1[1], v.1[2]] }) as Box<Ig<[u8]>> } }\n"
+          "pub fn me(v: &(u8, &'static [u8])) -> Box<Me<[u8]>> { match v.1.len() { 0 => Box::new(Me(v.0, [0u8; 0])) as Box<Me<[u8]>>, 2 => Box::new(Me(v.0, [v.1[0], v.1[1]])) as Box<Me<[u8]>>, "
+          "_ => Box::new(Me(v.0, [v.1[0], v.1[1], v.1[2]])) as Box<Me<[u8]>> } }\n"
+          "pub fn bi(v: &(u8, &'static [u8])) -> Box<Bi<[u8]>> { match v.1.len() { 0 => Box::new(Bi { id: v.0, tail: [0u8; 0] }) as Box<Bi<[u8]>>, 2 => Box::new(Bi { id: v.0, tail: [v.1[0], v.1[1]] }) as Box<Bi<[u8]>>, "
+          "_ => Box::new(Bi { id: v.0, tail: [v.1[0], v.1[1], v.1[2]] }) as Box<Bi<[u8]>> } }\n")
+    drive = ("        let vs = all(); let mut s = [String::new(), String::new(), String::new()];\n"
+             "        for a in vs.iter() { for b in vs.iter() {\n"
+             "            s[0].push(if *ig(a) == *ig(b) { '1' } else { '0' }); s[1].push(if *me(a) == *me(b) { '1' } else { '0' }); s[2].push(if *bi(a) == *bi(b) { '1' } else { '0' });\n"
+             "        } }\n        %sbegin(); %sobs(\"unsz\", \"unsized\", 0, -1, &format!(\"{}\\t{}\\t{}\", s[0], s[1], s[2]));" % (RT, RT))
+    c = BH.Case("unsz", None, UNSIZED_TEXT, [], glue=mk, drive=drive, info={})
+    c.module = lambda c=c: H.module(c.cid, c.text + c.glue + "pub fn run() {\n    %sguarded(\"%s\", || {\n%s\n    });\n}\n" % (RT, c.cid, c.drive))
+    return c
+
+
+def judge_unsized(chk, c, obs, dropped):
+    if c.cid in dropped:
+        d = dropped[c.cid][0]
+        chk.violation("unsized-tail-does-not-compile", "PartialEq on a struct with an unsized last field does not compile: %s\n%s"
+                      % (d.get("rendered") or d["message"], c.text), {"case.rs": c.module()})
+        return
+    o = obs.get(c.cid)
+    if o is None or not o.recs:
+        chk.inconc("unsized-not-run")
+        return
+    got = o.recs[0][3]
+
+    def first(t):
+        return t[0] if t else None
+    want = ["".join("1" if a[0] == b[0] else "0" for a in UNSIZED_VALS for b in UNSIZED_VALS),
+            "".join("1" if a[0] == b[0] and first(a[1]) == first(b[1]) else "0" for a in UNSIZED_VALS for b in UNSIZED_VALS),
+            "".join("1" if a == b else "0" for a in UNSIZED_VALS for b in UNSIZED_VALS)]
+    for name, g, w in zip(("ignored tail", "tail compared by a method", "tail compared by its own =="), got, want):
+        chk.evaluations += len(w)
+        if g != w:
+            chk.violation("unsized-tail|%s" % name, "== on values of an unsized struct (%s) is not decided by the compared fields alone\n"
+                          "observed %s\nexpected %s\nvalues %s\n%s" % (name, g, w, UNSIZED_VALS, c.text), {"case.rs": c.module()})
+            return
+    chk.held("unsized-tails", True, 3)
+    chk.count("unsized-tail")
+
+
 def main(tier, seed, scale=1.0):
     chk = Check(PROP, tier, seed)
     n = int((960 if tier == "quick" else 30000) * scale)
@@ -153,6 +211,9 @@ def main(tier, seed, scale=1.0):
             log("C02: binary %s exited with %s: %s" % (b, rc, err[-500:]))
         for c in cases:
             judge(chk, c, obs, dropped)
+    uc = unsized_case()
+    obs, dropped, crashed, _, _ = BH.execute("c02u", [uc])
+    judge_unsized(chk, uc, obs, dropped)
     # differential family: parameter-free requests over std field types against std's derives
     tw = TW.cases(seed, PROP, max(40, n // 4), "eq")
     obs, dropped, crashed, _, _ = BH.execute("c02w", tw)
